@@ -1221,3 +1221,20 @@ namespace sim
         return exitCode;
     }
 }  // namespace sim
+
+// Sanitizer configuration compiled into every engine (non-inline, default visibility, so the runtimes find it).
+// Leak checking is off: leaks of *states* are accounted by the harness ledger at process exit; other leaks are
+// outside the properties (DESIGN C03, C09).  Exit code 77 classifies a sanitizer abort.
+extern "C" __attribute__((used, visibility("default"))) const char *__asan_default_options()
+{
+    return "detect_leaks=0:exitcode=77:abort_on_error=0:allocator_may_return_null=1:detect_stack_use_after_return=0:"
+           "handle_abort=1:check_initialization_order=0:detect_odr_violation=0";
+}
+extern "C" __attribute__((used, visibility("default"))) const char *__ubsan_default_options()
+{
+    return "print_stacktrace=1:halt_on_error=1:exitcode=77";
+}
+extern "C" __attribute__((used, visibility("default"))) const char *__tsan_default_options()
+{
+    return "exitcode=66:halt_on_error=1:report_signal_unsafe=0:second_deadlock_stack=1:history_size=4";
+}
